@@ -25,7 +25,7 @@ type c19Case struct {
 	Backend  string   `json:"backend"`
 }
 
-var c19Policies = []string{"vary-star", "vary-xa-star", "vary-xa", "vary-alternate-ab", "vary-alternate-none", "no-vary", "validate-each-round", "swr-each-round", "vary-star-validate", "status-alternate", "vary-alternate-xa-star", "vary-inm"}
+var c19Policies = []string{"vary-star", "vary-xa-star", "vary-xa", "vary-alternate-ab", "vary-alternate-none", "no-vary", "validate-each-round", "swr-each-round", "vary-star-validate", "status-alternate", "vary-alternate-xa-star", "vary-inm", "vary-by-request"}
 
 func genC19(r *rand.Rand) c19Case {
 	c := c19Case{U: 1 + r.IntN(3), Policy: pick(r, c19Policies), DtS: pick(r, []float64{0, 1, 2, 5}), Backend: pick(r, []string{"mem", "mem", "mem", "fs"})}
@@ -41,6 +41,21 @@ func genC19(r *rand.Rand) c19Case {
 	}
 	if chance(r, 0.25) {
 		c.PostEach = 3 + r.IntN(5)
+	}
+	if c.Policy == "vary-by-request" {
+		// the reply's Vary depends on who asks: X-A for X-A: 1, a field set that
+		// changes with every reply for everybody else; every request is answered
+		// by the origin with a full reply (max-age=0, no validator)
+		c.Combos = append([]string{"1|-", "2|-"}, c.Combos...)
+		seen := map[string]bool{}
+		out := c.Combos[:0]
+		for _, cb := range c.Combos {
+			if !seen[cb] {
+				seen[cb] = true
+				out = append(out, cb)
+			}
+		}
+		c.Combos = out
 	}
 	return c
 }
@@ -73,6 +88,8 @@ func c19Vary(policy string, k int) (vary []string, distinct int) {
 	case "vary-inm":
 		// varies on a field the cache itself adds to its validation requests
 		return []string{"If-None-Match, X-A"}, 1
+	case "vary-by-request":
+		return nil, 2 // (set per request in the handler)
 	}
 	return nil, 1
 }
@@ -143,6 +160,14 @@ func c19Run(r *run.Runner, c c19Case) {
 		case "status-alternate":
 			rs.CC = []string{"max-age=1"}
 			rs.Status = []int{200, 404, 301}[k%3]
+		case "vary-by-request":
+			rs.CC = []string{"max-age=0"}
+			rs.ETag = ""
+			if xa := req.Header.Values("X-A"); len(xa) == 1 && xa[0] == "1" {
+				rs.Vary = []string{"X-A"}
+			} else {
+				rs.Vary = []string{fmt.Sprintf("X-F%d", k)}
+			}
 		}
 		return Render(&rs, uc.Enter, uc.Serial)
 	}})
